@@ -1,6 +1,7 @@
 package props
 
 import (
+	"encoding/json"
 	"fmt"
 	"sort"
 	"strings"
@@ -202,3 +203,8 @@ func checkBuiltInTable() error {
 func refReserved(s string) bool { return ref.Reserved[s] }
 
 func sortStringsInPlace(xs []string) { sort.Strings(xs) }
+
+func jsonString(s string) string {
+	b, _ := json.Marshal(s)
+	return string(b)
+}
